@@ -11,7 +11,7 @@ import seqmodel as sm
 from common import Toks, ztok, qtok, D
 
 ID = 'C19'
-GEN_SECTIONS = ['GenLabels', 'GenFile', 'FP_store_events', 'FP_store_ext', 'FP_get_block', 'FP_event_lib', 'FP_labels']
+GEN_SECTIONS = ['GenLabels', 'GenFile', 'GenDedup', 'FP_store_events', 'FP_store_ext', 'FP_get_block', 'FP_event_lib', 'FP_labels']
 COQ_TARGETS = ['Props/C19.vo']
 EXTRACT_TARGETS = ['Extract/Ex_labels.vo']
 RUNNER = 'labels'
@@ -110,6 +110,13 @@ def gen_trig(rng):
         typ, ch = 'output', rng.choice(OUT_CH)
     delay = rng.choice([0, 0, 10, 100, rng.randint(0, 3000), rng.randint(0, 3000)])
     dur = rng.choice([1, 5, 10, 11, 100, 200, rng.randint(1, 4000), rng.randint(1, 4000)])
+    r = rng.random()
+    if r < 0.12:       # seconds with microsecond steps: everything the integer-microsecond columns carry
+        delay = rng.choice([rng.randint(10 ** 6, 9 * 10 ** 6), 2000013, 1000001, rng.randint(10 ** 5, 10 ** 6)])
+    elif r < 0.24:
+        dur = rng.choice([rng.randint(10 ** 6, 9 * 10 ** 6), 2000013, 3999999, rng.randint(10 ** 5, 10 ** 6)])
+    elif r < 0.28:
+        delay, dur = rng.randint(10 ** 6, 5 * 10 ** 6), rng.randint(10 ** 6, 5 * 10 ** 6)
     return [typ, ch, delay, dur]
 
 
@@ -163,7 +170,7 @@ def gen_program(rng, tier, multi=False):
     if labs and ninit and rng.random() < 0.7:
         init_labs[0] = rng.choice(labs)
     init = [[l, rng.choice([0, 1, -1, rng.randint(-50, 50), rng.randint(-10 ** 5, 10 ** 5)])] for l in dict.fromkeys(init_labs)]
-    return {'stream': 'multi' if multi else 'prog', 'blocks': blocks, 'init': init}
+    return {'stream': 'multi' if multi else 'prog', 'blocks': blocks, 'init': init, 'dedup': rng.random() < 0.25}
 
 
 def gen_continue(rng, tier):
@@ -247,13 +254,16 @@ def gen_reuse(rng, tier):
     post += program([['LAB', 'TRG'], ['TRG'], ['LAB']], rng.randint(1, 3))
     rng.shuffle(post)
     init = [[l, rng.randint(-50, 50)] for l in dict.fromkeys(rng.sample(labs, rng.choice([0, 1, 2])))]
-    return {'stream': 'reuse', 'blocks': pre, 'files': files, 'post': post, 'init': init}
+    for f in files:
+        f['opts'] = [rng.random() < 0.5, rng.random() < 0.3]      # remove_duplicates, detect_rf_use
+    return {'stream': 'reuse', 'blocks': pre, 'files': files, 'post': post, 'init': init, 'cache': rng.random() < 0.7}
 
 
 def run_reuse(ctx, case, pending):
     """object history: add_block*, read(other file) (+ read again), add_block*, write/read"""
     import pypulseq as pp
-    s = Single(pp.Opts())
+    cache = case.get('cache', True)
+    s = Single(pp.Opts(), cache=cache)
     expect = []
     for spec in case['blocks']:
         evs = build_block(spec)
@@ -264,8 +274,9 @@ def run_reuse(ctx, case, pending):
         expect.append(added_multisets(evs))
     for i in list(s.on.block_events.keys()):
         s.get(i)
-    ok = check_sequence(ctx, dict(case, post=[]), s.on, expect, 'stored')
+    ok = check_sequence(ctx, dict(case, post=[]), s.on, expect, 'stored')      # (this also warms the block cache)
     for f in case['files']:
+        rdup, drf = f.get('opts', [True, False])
         sb = Single(pp.Opts())
         expect = []
         for spec in f['blocks']:
@@ -280,12 +291,38 @@ def run_reuse(ctx, case, pending):
             fn = os.path.join(d, 'o.seq')
             try:
                 sb.on.write(fn, create_signature=False)
-                s.on.read(fn)
+                s.on.read(fn, detect_rf_use=drf, remove_duplicates=rdup)
+                fresh = pp.Sequence(pp.Opts(), use_block_cache=cache)
+                fresh.read(fn, detect_rf_use=drf, remove_duplicates=rdup)
             except Exception as e:  # noqa: BLE001
                 ctx.fail('C19/reuse-read-raises', case, {'exception': repr(e)[:300], 'flavour': f['flavour']})
                 return
+        # the used object must be indistinguishable from a fresh one that read the same file with the same options
+        dif = None
+        if list(s.on.block_events.keys()) != list(fresh.block_events.keys()):
+            dif = 'block ids %s vs fresh %s' % (list(s.on.block_events.keys()), list(fresh.block_events.keys()))
+        else:
+            for i in fresh.block_events:
+                try:
+                    a, b = sm.canon_block(s.on.get_block(i)), sm.canon_block(fresh.get_block(i))
+                except Exception as e:  # noqa: BLE001
+                    dif = 'get_block(%d) raises %r' % (i, e)
+                    break
+                if not H.deep_equal(a, b):
+                    dif = 'get_block(%d): %s' % (i, H.first_diff(a, b))
+                    break
+            if dif is None:
+                for mode in MODES:
+                    if canon_result(s.on.evaluate_labels(evolution=mode)) != canon_result(fresh.evaluate_labels(evolution=mode)):
+                        dif = 'evaluate_labels(%s) differs' % mode
+                        break
+        if dif:
+            ctx.fail('C19/reuse-read-differs-from-fresh', case, {'what': dif, 'remove_duplicates': rdup, 'detect_rf_use': drf,
+                                                                 'use_block_cache': cache})
+            ok = False
         rec = s.loaded()
         ctx.count('reuse.read.' + f['flavour'])
+        ctx.count('reuse.read.opts.dedup=%s,rf_use=%s,cache=%s' % (rdup, drf, cache))
         if ctx.model_available:
             pending.append((case, (s.header, ops_before, list(sb.ops)), rec['state'], 'readonto'))
         for i in list(s.on.block_events.keys()):
@@ -305,7 +342,7 @@ def run_reuse(ctx, case, pending):
         s.get(i)
     ecase = dict(case, blocks=case['files'][-1]['blocks'])
     ok = check_sequence(ctx, ecase, s.on, expect2, 'reuse-extended') and ok
-    if ctx.model_available:
+    if ctx.model_available and not s.partial_cache:
         pending.append((case, s, case['init'], 'reuse'))
     s3 = None
     with tempfile.TemporaryDirectory(prefix='pvC19') as d:
@@ -467,7 +504,9 @@ def one_op(case):
 # ---- building real events ----------------------------------------------------------------------------
 def build_block(spec):
     import pypulseq as pp
-    evs = [pp.make_delay(BLOCK_DUR)]
+    need = max([0.0] + [(t[2] + t[3]) * 1e-6 for t in spec['trigs']])
+    # the block must outlast its triggers and stay on the 10 us block raster
+    evs = [pp.make_delay(BLOCK_DUR if need < BLOCK_DUR else (int(need / 1e-2) + 2) * 1e-2)]
     for o in spec['ops']:
         evs.append(pp.make_label(o[1], o[0], o[2]))
     for t in spec['trigs']:
@@ -629,7 +668,7 @@ def check_sequence(ctx, case, seq, expect, tag):
 class Single:
     """one Sequence + the token line of its history for the model (same record layout as histories.Twin)"""
 
-    def __init__(self, system=None, seq=None):
+    def __init__(self, system=None, seq=None, cache=True):
         import pypulseq as pp
         import translate
         if 'align_check_uses_abs' not in translate.CONSTS:
@@ -638,9 +677,10 @@ class Single:
             except Exception:  # noqa: BLE001
                 pass
         self.abs_fix = translate.CONSTS.get('align_check_uses_abs', True)
-        self.on = seq if seq is not None else pp.Sequence(system or pp.Opts(), use_block_cache=True)
-        self.header = sm.header_tokens(self.on, True, self.abs_fix)
+        self.on = seq if seq is not None else pp.Sequence(system or pp.Opts(), use_block_cache=cache)
+        self.header = sm.header_tokens(self.on, bool(self.on.use_block_cache), self.abs_fix)
         self.ops, self.records = [], []
+        self.partial_cache = False
 
     def _rec(self, kind, tok, f, extra=None):
         try:
@@ -670,8 +710,26 @@ class Single:
         return self._rec('get', 'get ' + ztok(i), lambda: self.on.get_block(i), {'index': i})
 
     def loaded(self):
-        """record the current store as the result of a read() (model: Load)"""
-        return self._rec('read', 'load ' + sm.core_tokens(self.on), lambda: None)
+        """record the current store as the result of a read() (model: Load).  read(remove_duplicates=False) leaves
+        every block it decoded for its first/last scan in the cache: that is recorded as Load followed by the
+        model's TouchAll (get_block of every block); a partly filled cache cannot be expressed and disables the
+        model comparison of this history (self.partial_cache)"""
+        st = sm.state_dump(self.on)
+        ids = [i for i, _ in st['blocks']]
+        tok = 'load ' + sm.core_tokens(self.on)
+        if st['cache'] and sorted(st['cache']) == sorted(ids):
+            self.ops.append(tok)
+            self.records.append({'kind': 'read', 'outcome': ('ok', None), 'state': dict(st, cache=[])})
+            self.ops.append('touch')
+            rec = {'kind': 'write', 'outcome': ('ok', None), 'state': st}
+            self.records.append(rec)
+            return rec
+        if st['cache']:
+            self.partial_cache = True
+        return self._rec('read', tok, lambda: None)
+
+    def dedup_in_place(self):
+        return self._rec('dedupip', 'dedupip', lambda: self.on.remove_duplicates(in_place=True) and None)
 
     def line(self, init):
         env = ' '.join([str(len(init))] + ['%s %s' % (ztok(labels().index(l) + 1), ztok(int(v))) for l, v in init])
@@ -782,6 +840,16 @@ def run_program(ctx, case, pending):
     for i in list(s.on.block_events.keys()):
         s.get(i)
     check_sequence(ctx, case, s.on, expect, 'stored')
+    if case.get('dedup'):
+        # in-place duplicate removal must not change any label / trigger (their libraries are not rounded)
+        rec = s.dedup_in_place()
+        if rec['outcome'][0] != 'ok':
+            ctx.fail('C19/remove_duplicates-raises', case, {'error': rec['outcome'][1]})
+            return
+        for i in list(s.on.block_events.keys()):
+            s.get(i)
+        check_sequence(ctx, case, s.on, expect, 'deduped')
+        ctx.count('programs.dedup_in_place')
     init = case['init']
     if ctx.model_available:
         pending.append((case, s, init, 'history'))
